@@ -95,8 +95,26 @@ Proof.
   destruct (stp s o) as [s' a]. specialize (IH s'). destruct (run_from stp s' h). cbn in *. congruence.
 Qed.
 
+Lemma aget_app1 : forall m u n, aget (m ++ [u]) n =
+  match aget m n with Some v => Some v | None => if str_eqb (uname u) n then Some u else None end.
+Proof.
+  induction m as [|x m IH]; intros u n; cbn; [reflexivity|].
+  destruct (str_eqb (uname x) n); [reflexivity|apply IH].
+Qed.
+
+Lemma cadd_get cap c u m v : aget (cadd cap c u) m = Some v ->
+  (str_eqb (uname u) m = true /\ v = u) \/ (str_eqb (uname u) m = false /\ aget c m = Some v).
+Proof.
+  unfold cadd. destruct (Nat.leb cap (List.length (adel c (uname u)))).
+  - rewrite aget_adel. destruct (str_eqb (uname u) m); [discriminate|]. intros H. right. split; [reflexivity|exact H].
+  - rewrite aget_app1, aget_adel. destruct (str_eqb (uname u) m).
+    + intros H. inversion H. left. split; reflexivity.
+    + destruct (aget c m) as [w|]; [|discriminate]. intros H. right. split; [reflexivity|exact H].
+Qed.
+
 Section Sim.
   Variable admin : user.
+  Variable cap : nat.
   Notation an := (uname admin).
 
   (* ---- file store *)
@@ -167,38 +185,38 @@ Section Sim.
     aget (dtbl ds) an <> None.
 
   Lemma dread_ok ds s n : Rd ds s ->
-    let '(ds', r) := dread ds n in Rd ds' s /\ dtbl ds' = dtbl ds /\ r = aget (dtbl ds) n.
+    let '(ds', r) := dread cap ds n in Rd ds' s /\ dtbl ds' = dtbl ds /\ r = aget (dtbl ds) n.
   Proof.
     intros (H1 & H2 & H3). unfold dread.
     destruct (aget (dcache ds) n) as [u|] eqn:EC.
     - repeat split; auto. symmetry. apply H2. exact EC.
     - destruct (aget (dtbl ds) n) as [u|] eqn:ET.
       + repeat split; cbn; auto.
-        intros m v Hm. rewrite aget_aput in Hm.
-        destruct (str_eqb (uname u) m) eqn:E.
-        * inversion Hm; subst. apply str_eqb_eq in E. rewrite <- E, (aget_name _ _ _ ET). exact ET.
+        intros m v Hm. apply cadd_get in Hm as [[E Hv]|[E Hm]].
+        * subst v. apply str_eqb_eq in E. rewrite <- E, (aget_name _ _ _ ET). exact ET.
         * apply H2. exact Hm.
       + repeat split; auto.
   Qed.
 
-  Lemma dwrite_ok ds s u : Rd ds s -> Rd (dwrite ds u) (aput s (norm u)).
+  Lemma dwrite_ok ds s u : Rd ds s -> Rd (dwrite cap ds u) (aput s (norm u)).
   Proof.
     intros (H1 & H2 & H3). unfold dwrite.
     assert (R1 : Rd (mkd (dtbl ds) (adel (dcache ds) (uname u))) s).
     { repeat split; cbn; auto. intros m v Hm. rewrite aget_adel in Hm.
       destruct (str_eqb (uname u) m); [discriminate|]. apply H2. exact Hm. }
     pose proof (dread_ok _ _ (uname u) R1) as HD.
-    destruct (dread (mkd (dtbl ds) (adel (dcache ds) (uname u))) (uname u)) as [s2 r].
+    destruct (dread cap (mkd (dtbl ds) (adel (dcache ds) (uname u))) (uname u)) as [s2 r].
     destruct HD as ((D1 & D2 & D3) & DT & _). cbn in DT.
     repeat split; cbn.
     - rewrite DT, <- H1. symmetry. apply aput_map. exact norm_name.
-    - intros m v Hm. rewrite aget_aput in *.
-      destruct (str_eqb (uname u) m); [assumption|]. apply D2. exact Hm.
+    - intros m v Hm. rewrite aget_aput. apply cadd_get in Hm as [[E Hv]|[E Hm]]; rewrite E.
+      + subst v. reflexivity.
+      + apply D2. exact Hm.
     - rewrite aget_aput. destruct (str_eqb (uname u) an); [discriminate|]. rewrite DT. assumption.
   Qed.
 
   Lemma dstep_sim : forall ds s o, keeps_admin admin o = true -> Rd ds s ->
-    let '(ds', a) := dstep admin false ds o in let '(s', b) := sstep s o in Rd ds' s' /\ a = b.
+    let '(ds', a) := dstep admin false cap ds o in let '(s', b) := sstep s o in Rd ds' s' /\ a = b.
   Proof.
     intros ds s o Hk HR. pose proof HR as (H1 & H2 & H3).
     assert (HG : forall n, aget s n = option_map norm (aget (dtbl ds) n)).
@@ -210,14 +228,14 @@ Section Sim.
       + rewrite <- H1. symmetry. apply adel_map. exact norm_name.
       + intros m v Hm. rewrite aget_adel in *. destruct (str_eqb n m); [discriminate|]. apply H2. exact Hm.
       + rewrite aget_adel. destruct (str_eqb n an) eqn:E2; [|assumption]. apply str_eqb_eq in E2. congruence.
-    - pose proof (dread_ok _ _ n HR) as HD. destruct (dread ds n) as [ds' r]. destruct HD as (R & _ & Hr).
+    - pose proof (dread_ok _ _ n HR) as HD. destruct (dread cap ds n) as [ds' r]. destruct HD as (R & _ & Hr).
       split; [assumption|]. rewrite HG, Hr. reflexivity.
     - split; [assumption|]. rewrite H1. reflexivity.
-    - pose proof (dread_ok _ _ n HR) as HD. destruct (dread ds n) as [ds' r]. destruct HD as (R & _ & Hr).
+    - pose proof (dread_ok _ _ n HR) as HD. destruct (dread cap ds n) as [ds' r]. destruct HD as (R & _ & Hr).
       split; [assumption|]. rewrite HG, Hr. destruct (aget (dtbl ds) n); reflexivity.
-    - pose proof (dread_ok _ _ n HR) as HD. destruct (dread ds n) as [ds' r]. destruct HD as (R & _ & Hr).
+    - pose proof (dread_ok _ _ n HR) as HD. destruct (dread cap ds n) as [ds' r]. destruct HD as (R & _ & Hr).
       split; [assumption|]. rewrite HG, Hr. destruct (aget (dtbl ds) n); reflexivity.
-    - pose proof (dread_ok _ _ n HR) as HD. destruct (dread ds n) as [ds' r]. destruct HD as (R & _ & Hr).
+    - pose proof (dread_ok _ _ n HR) as HD. destruct (dread cap ds n) as [ds' r]. destruct HD as (R & _ & Hr).
       rewrite HG, Hr. destruct (aget (dtbl ds) n) as [u|]; cbn [option_map].
       + split; [|reflexivity]. unfold spu. rewrite <- norm_set_perm. apply dwrite_ok. assumption.
       + split; [assumption|reflexivity].
@@ -250,8 +268,8 @@ Section Sim.
 
   Lemma file_refines h : guard admin h = true -> file_answers admin false h = spec_answers admin h.
   Proof. intros Hg. unfold file_answers, spec_answers. apply (run_sim (fstep admin false) Rf fstep_sim h _ _ Hg Rf_init). Qed.
-  Lemma db_refines h : guard admin h = true -> db_answers admin false h = spec_answers admin h.
-  Proof. intros Hg. unfold db_answers, spec_answers. apply (run_sim (dstep admin false) Rd dstep_sim h _ _ Hg Rd_init). Qed.
+  Lemma db_refines h : guard admin h = true -> db_answers admin false cap h = spec_answers admin h.
+  Proof. intros Hg. unfold db_answers, spec_answers. apply (run_sim (dstep admin false cap) Rd dstep_sim h _ _ Hg Rd_init). Qed.
 
   (* a restart anywhere only adds its own Ok to the abstract answers *)
   Lemma spec_reopen h1 h2 : exists l1 l2,
@@ -280,7 +298,7 @@ Definition witness_old : list op :=
    OSetPerm (L "bob") (L "x") true; OPerms (L "bob")].
 
 Lemma default_user_refuted :
-  file_answers demo_admin false witness_default <> db_answers demo_admin false witness_default.
+  file_answers demo_admin false witness_default <> db_answers demo_admin false 1000 witness_default.
 Proof. vm_compute. intros H. discriminate H. Qed.
 
 Definition witness_old_noreopen : list op :=
@@ -290,6 +308,6 @@ Definition witness_old_noreopen : list op :=
 (* pinned setPermission: the stores disagree, and the file store answers differently with and without a restart *)
 Lemma old_refuted :
   guard demo_admin witness_old = true /\
-  file_answers demo_admin true witness_old <> db_answers demo_admin true witness_old /\
+  file_answers demo_admin true witness_old <> db_answers demo_admin true 1000 witness_old /\
   last (file_answers demo_admin true witness_old) AOk <> last (file_answers demo_admin true witness_old_noreopen) AOk.
 Proof. split; [reflexivity|]. split; vm_compute; intros H; discriminate H. Qed.
